@@ -403,15 +403,37 @@ def job_ground_accuracy(ctx: Ctx, what):
         if not err <= 1e-6 * float(np.max(np.abs(vex))):
             bad["robust solver on its own fitted core model (C, O)"] = dict(max_abs_error=err, potential_scale=float(np.max(np.abs(vex))))
         label = "robust solver == analytic core potential when the density is the fitted core model (relative 1e-6)"
+    elif what == "robust-split2":
+        atn, atc = np.array([6, 8]), np.array([[0, 0, -1.1], [0, 0, 1.1]])
+        mg = MolGrid(atn, [AtomGrid(rg, degrees=[11], center=c) for c in atc], BeckeWeights(order=3), store=True)
+        dens, vex = 0, 0
+        for z, c in zip(atn, atc):
+            cfs, als = co.load_atomic_gaussian_params(int(z))
+            dens = dens + sum(cc * (a / np.pi) ** 1.5 * np.exp(-a * np.sum((mg.points - c) ** 2, axis=1)) for cc, a in zip(cfs, als))
+            vex = vex + co.coulomb_potential(q, np.tile(c, (len(cfs), 1)), cfs, als)
+        # smooth extra density: different amounts on the two nuclei (so that swapping the centres of the fitted functions shows) and a bond-centre Gaussian
+        ecs, eal, ecf = [atc[0].astype(float), atc[1].astype(float), np.zeros(3)], [2.0, 0.8, 1.0], [0.9, 0.2, 0.3]
+        dens = dens + rho(mg.points, ecs, eal, ecf)
+        vex = vex + pot(q, ecs, eal, ecf)
+        basis = np.array([0.8, 2.0, 5.0])
+        v2 = solve_poisson_robust(mg, dens, itf, atn, atc, split2=True, alphas_basis=basis, include_origin=True, remove_large_pts=10.0)(q)
+        v1 = solve_poisson_robust(mg, dens, itf, atn, atc, include_origin=True, remove_large_pts=10.0)(q)
+        e2, e1 = float(np.max(np.abs(v2 - vex))), float(np.max(np.abs(v1 - vex)))
+        if not e2 <= 2e-2:
+            bad["robust solver with the NNLS split (split2=True), two centres, vs analytic potential"] = dict(max_abs_error=e2, error_without_split=e1)
+        if not e1 <= 2e-2:
+            bad["robust solver (split 1), two centres, vs analytic potential"] = e1
+        label = "robust solver with and without the NNLS split matches the analytic potential of core model + smooth Gaussians on two centres (2e-2)"
     elif what == "atom":
         ag = AtomGrid(rg, degrees=[9])
-        cs, al, cf = [np.zeros(3), np.array([0.0, 0.0, 0.3])], [1.0, 2.5], [1.0, 0.5]
+        # displaced Gaussians on both sides and of both signs: harmonic components of either sign, some of one sign only
+        cs, al, cf = [np.zeros(3), np.array([0.0, 0.0, -0.3]), np.array([0.25, 0.0, 0.0])], [1.0, 2.5, 2.0], [1.0, 0.5, -0.4]
         v = po.solve_poisson_bvp(ag, rho(ag.points, cs, al, cf), itf, include_origin=True, remove_large_pts=10.0)(q)
         e1 = float(np.max(np.abs(v - pot(q, cs, al, cf))))
         v = po.solve_poisson_ivp(ag, rho(ag.points, cs[:1], al[:1], cf[:1]), itf, r_interval=(1000, 1e-5))(q)
         e2 = float(np.max(np.abs(v - pot(q, cs[:1], al[:1], cf[:1]))))
         if not e1 <= 1e-2:
-            bad["atomic grid, BVP, off-centre Gaussian (l > 0 components)"] = e1
+            bad["atomic grid, BVP, off-centre Gaussians of both signs (l > 0 components)"] = e1
         if not e2 <= 1e-2:
             bad["atomic grid, IVP, centred Gaussian"] = e2
         label = "atomic grid: BVP (two Gaussians, one off-centre) and IVP (centred Gaussian) match erf(sqrt(a) r)/r within 1e-2"
@@ -438,7 +460,7 @@ def job_ground_accuracy(ctx: Ctx, what):
 def jobs(tier):
     js = [Job("atom/bvp/l<=1", job_atom, "bvp", 3, False), Job("atom/bvp/origin-in-grid", job_atom, "bvp", 2, True), Job("atom/ivp/l<=1", job_atom, "ivp", 3, False),
           Job("molecular", job_molecular), Job("laplacian", job_laplacian), Job("robust/2", job_robust, 2)]
-    js += [Job("ground/robust-core", job_ground_accuracy, "robust-core"), Job("ground/atom", job_ground_accuracy, "atom")]
+    js += [Job("ground/robust-core", job_ground_accuracy, "robust-core"), Job("ground/atom", job_ground_accuracy, "atom"), Job("ground/robust-split2", job_ground_accuracy, "robust-split2")]
     if tier == "thorough":
         js += [Job("ground/linearity", job_ground_accuracy, "linearity"), Job("ground/molecule", job_ground_accuracy, "molecule")]
         js += [Job("atom/bvp/l<=2", job_atom, "bvp", 5, False), Job("atom/ivp/l<=2", job_atom, "ivp", 5, False), Job("robust/3", job_robust, 3)]
@@ -452,7 +474,7 @@ def main():
     return harness.finish(
         PROP, res, t0, "DESIGN.md#c16",
         bounds=dict(l="l <= 1 (quick) / 2", atoms="2 (quick) / 3 centres in the robust solver, 3 atoms in the molecular fan-out", radial_nodes="3 symbolic (with and without r = 0)", density="uninterpreted harmonic components / symbolic values"),
-        outside=["accuracy statements are not solver questions: sampled on the float code by ground jobs (robust-core exactness, atomic BVP/IVP vs erf potential; thorough: linearity, two-centre molecule)", "the NNLS split (split2=True)",
+        outside=["accuracy statements are not solver questions: sampled on the float code by ground jobs (robust-core exactness, atomic BVP/IVP vs erf potential; thorough: linearity, two-centre molecule)", "the NNLS split (split2=True) is sampled by the ground job ground/robust-split2 only",
                  "AtomGrid.radial_component_splines / interpolation themselves (C09)"],
         assumptions=["solve_ode_bvp / solve_ode_ivp (as imported by poisson.py) and solve_poisson_bvp / coulomb_potential / load_atomic_gaussian_params (as imported by robust_poisson.py) replaced by capturing stubs",
                      "atomic / molecular grids replaced by duck-typed stubs with uninterpreted harmonic components"])
